@@ -18,7 +18,8 @@ var (
 	garbageQ    = []string{"x", "", "0.5.1", "high", "1 0", "0.5x", "\xc2\xbd", "-", ".", "0..1", "q", "0,5", "1;", "0.5=1", "=0.2"}
 	extraParams = []Param{{Name: "level", Val: "1"}, {Name: "charset", Val: "utf-8"}, {Name: "v", Val: "b3"},
 		{Name: "x", Bare: true}, {Name: "a", Val: "b=c"}, {Name: "Q", Val: "0.3"}, {Name: "qs", Val: "0.1"}, {Name: "", Val: "1"}}
-	defaults = []string{"", "", "", "", "", "", "", "", "", "",
+	presetTypes = []string{"text/plain; charset=utf-8", "text/plain", "text/html; charset=utf-8", "application/octet-stream", "application/problem+json", "application/json; charset=utf-8", "application/xml; charset=utf-8"}
+	defaults    = []string{"", "", "", "", "", "", "", "", "", "",
 		restful.MIME_JSON, restful.MIME_JSON, restful.MIME_JSON, restful.MIME_JSON,
 		restful.MIME_XML, restful.MIME_XML, restful.MIME_XML, restful.MIME_XML,
 		restful.MIME_ZIP, "text/plain"}
@@ -119,6 +120,18 @@ func Gen(r *rng.R) *Case {
 	}
 	c.Compact = r.Chance(1, 3)
 	c.Default = defaults[r.Intn(len(defaults))]
+	if r.Chance(1, 4) {
+		// a Content-Type is on the response before the entity is written
+		c.PresetBy = r.Pick(PresetBys)
+		switch r.Intn(4) {
+		case 0:
+			c.Preset = r.Pick(AllMedia) // a registered type, produced or not
+		case 1:
+			c.Preset = r.Pick(c.Produces) + "; charset=utf-8"
+		default:
+			c.Preset = r.Pick(presetTypes)
+		}
+	}
 	switch x := r.Intn(100); {
 	case x < 8:
 		c.Absent = true
